@@ -58,7 +58,7 @@ try:
     missing = still
     flaky = set(base.get('flaky', []))
     ran.append('full suite with patch: %d passed, stable tests not passing: %s' % (len(passed), missing))
-    env = dict(os.environ, PYPHYSIM_REPO=wt)
+    env = dict(os.environ, PYPHYSIM_REPO=wt, VERIF_EVIDENCE_DIR='/tmp/seed_evidence')
     rc2, out2 = sh('./check %s --tier %s' % (prop, tier), cwd='/verif', env=env)
     vio = [l for l in out2.split('\n') if l.startswith('VIOLATION')]
     ran.append('./check %s --tier %s with patch: exit %d; %s' % (prop, tier, rc2, vio[:3]))
